@@ -6,7 +6,7 @@ import (
 	"fmt"
 	"reflect"
 	"sort"
-	"sync/atomic"
+	"unsafe"
 )
 
 // Chan models a Go channel under the controlled runtime. In pass-through mode
@@ -21,10 +21,79 @@ type Chan[T any] struct {
 	// waiting receiver or sender like any other: its partner may complete the communication)
 	selRecv []selReg
 	selSend []selSendReg[T]
-	// hb carries the happens-before edges of completed operations to the race
-	// detector (an atomic read-modify-write: acquire+release). This orders all
-	// operations of one channel, slightly more than Go guarantees.
-	hb uint32
+	// Happens-before edges for the race detector, modelled on the annotations of the Go runtime's own
+	// channels (runtime/chan.go: racenotify per buffer slot, racesync for a direct hand-over,
+	// racerelease/raceacquire on close): one token per buffer slot (acquire+release by the send that
+	// fills it and by the receive that empties it: send k happens-before receive k, receive k
+	// happens-before send k+cap), one token per parked operation (released by the parker before it
+	// parks, acquired+released by the partner that completes it, acquired by the parker when it
+	// resumes: the two sides synchronise with each other and with nobody else), one token for close.
+	slotTok  []uint64
+	pend     []*uint64 // per slot: the token of a parked partner whose past belongs into the slot (see setPend)
+	sendx    int
+	recvx    int
+	closeTok uint64
+}
+
+//go:norace
+func (c *Chan[T]) slot(i int) unsafe.Pointer {
+	if len(c.slotTok) == 0 {
+		n := c.core.cap
+		if n < 1 {
+			n = 1
+		}
+		c.slotTok = make([]uint64, n)
+		c.pend = make([]*uint64, n)
+	}
+	return unsafe.Pointer(&c.slotTok[i%len(c.slotTok)])
+}
+
+// setPend: the runtime performs a parked partner's slot notification on its behalf, with the clock the
+// partner had when it parked. The model cannot release on behalf of another goroutine; instead the
+// partner released its past into its own token before parking, and the next user of the slot -- the one
+// that is entitled to see that past -- acquires the token first (notifySlot).
+//
+//go:norace
+func (c *Chan[T]) setPend(i int, t *uint64) {
+	p := c.slot(i)
+	j := i % len(c.slotTok)
+	if old := c.pend[j]; old != nil && old != t {
+		raceAcquire(unsafe.Pointer(old))
+		raceRelease(p)
+	}
+	c.pend[j] = t
+}
+
+// resumeSlot is what a partner that was completed while parked does when it runs again: it acquires
+// what the other side released into its slot.
+//
+//go:norace
+func (c *Chan[T]) resumeSlot(i int) {
+	raceAcquire(c.slot(i))
+}
+
+// notifySlot is the runtime's racenotify: the operation that fills or empties a slot acquires what the
+// previous user of the slot released and releases its own past into it.
+//
+//go:norace
+func (c *Chan[T]) notifySlot(i int) {
+	p := c.slot(i)
+	j := i % len(c.slotTok)
+	if t := c.pend[j]; t != nil {
+		raceAcquire(unsafe.Pointer(t))
+		c.pend[j] = nil
+	}
+	raceAcquire(p)
+	raceRelease(p)
+}
+
+// syncWith is the runtime's racesync, split in two: the completing side acquires the parked side's past
+// and releases its own; the parked side acquires that when it resumes (parkedResume).
+//
+//go:norace
+func syncWith(tok *uint64) {
+	raceAcquire(unsafe.Pointer(tok))
+	raceRelease(unsafe.Pointer(tok))
 }
 
 // chanCore mirrors len(buf), len(sendq), len(recvq), cap and closed.
@@ -36,7 +105,9 @@ type chanCore struct {
 
 //go:norace
 func (c *chanCore) sendReady() bool {
-	return c.closed || c.nbuf < c.cap || c.nrecv > 0 || c.nselRecv > 0
+	// a registered receiver makes a send ready only when nothing is buffered: with a non-empty buffer the
+	// receiver is about to take the buffered element, and a send into a full buffer has to wait for that
+	return c.closed || c.nbuf < c.cap || (c.nbuf == 0 && (c.nrecv > 0 || c.nselRecv > 0))
 }
 
 //go:norace
@@ -77,12 +148,16 @@ func (w *chanWait) Ready() bool {
 type sendWait[T any] struct {
 	v     T
 	taken bool
+	tok   uint64
+	slot  int // buffered channels: the slot the element went through
 }
 
 type recvWait[T any] struct {
 	v    T
 	ok   bool
 	done bool
+	tok  uint64
+	slot int
 }
 
 //go:norace
@@ -96,31 +171,105 @@ func (c *Chan[T]) syncCore() {
 //
 //go:norace
 func (c *Chan[T]) deliver(v T) {
-	c.edge()
 	if len(c.buf) == 0 && len(c.recvq) > 0 {
 		r := c.recvq[0]
-		c.recvq = c.recvq[1:]
+		c.recvq = qdel(c.recvq, 0)
+		r.slot = c.handOver(&r.tok)
 		r.v, r.ok, r.done = v, true, true
 		return
 	}
 	if len(c.buf) < c.core.cap {
-		c.buf = append(c.buf, v)
+		c.notifySlot(c.sendx)
+		c.sendx++
+		c.bufPush(v)
 		return
 	}
 	if len(c.selRecv) > 0 {
 		g := c.selRecv[0]
+		g.w.slot = c.handOver(&g.w.tok)
 		g.w.complete(g.idx, v, true)
 		return
 	}
-	c.buf = append(c.buf, v) // not reached when the caller checked sendReady
+	panic("vrt: send delivered although the channel was not ready for it (model error)")
+}
+
+// handOver: the current thread sends directly to a parked receiver (token t). Unbuffered: the two
+// synchronise with each other (racesync). Buffered: the element passes through its slot -- the sender
+// notifies the slot, the receiver's notification is pending until it (or the next user of the slot) runs.
+//
+//go:norace
+func (c *Chan[T]) handOver(t *uint64) int {
+	if c.core.cap == 0 {
+		syncWith(t)
+		return 0
+	}
+	c.notifySlot(c.sendx)
+	c.sendx++
+	i := c.recvx
+	c.recvx++
+	c.setPend(i, t)
+	return i
+}
+
+// takeOver: the current thread receives from a parked sender (token t) whose element goes through slot
+// c.sendx first (buffered), or directly (unbuffered).
+//
+//go:norace
+func (c *Chan[T]) takeOver(t *uint64) int {
+	if c.core.cap == 0 {
+		syncWith(t)
+		return 0
+	}
+	i := c.sendx
+	c.sendx++
+	c.setPend(i, t)
+	return i
 }
 
 func MakeChan[T any](n int) *Chan[T] {
 	return &Chan[T]{real: make(chan T, n), core: chanCore{cap: n}}
 }
 
+// The model's own queues are touched by whichever thread performs an operation, with the scheduler's
+// hand-offs hidden from the race detector. Their code is //go:norace, but the runtime's slice helpers
+// (growslice, typedslicecopy) report their accesses to the detector whoever calls them: so the queues
+// never grow or copy through the runtime -- fixed capacity, element-wise moves.
+const maxWaiters = 32
+
 //go:norace
-func (c *Chan[T]) edge() { atomic.AddUint32(&c.hb, 1) }
+func qpush[E any](q []E, e E) []E {
+	if cap(q) == 0 {
+		q = make([]E, 0, maxWaiters)
+	}
+	if len(q) == cap(q) {
+		panic("vrt: channel model queue overflow")
+	}
+	q = q[:len(q)+1]
+	q[len(q)-1] = e
+	return q
+}
+
+//go:norace
+func qdel[E any](q []E, i int) []E {
+	for j := i; j+1 < len(q); j++ {
+		q[j] = q[j+1]
+	}
+	var z E
+	q[len(q)-1] = z
+	return q[:len(q)-1]
+}
+
+//go:norace
+func (c *Chan[T]) bufPush(v T) {
+	if cap(c.buf) == 0 {
+		n := c.core.cap
+		if n < 1 {
+			n = 1
+		}
+		c.buf = make([]T, 0, n)
+	}
+	c.buf = qpush(c.buf, v)
+}
 
 //go:norace
 func (c *Chan[T]) sendReady() bool { c.syncCore(); return c.core.sendReady() }
@@ -146,11 +295,12 @@ func Send[T any](c *Chan[T], v T) {
 		return
 	}
 	s := &sendWait[T]{v: v}
-	c.sendq = append(c.sendq, s)
+	raceRelease(unsafe.Pointer(&s.tok)) // whoever takes the value while this send is parked sees the sender's past
+	c.sendq = qpush(c.sendq, s)
 	c.syncCore()
 	Wait("chan send", &chanWait{core: &c.core, done: &s.taken, send: true})
 	if s.taken {
-		c.edge()
+		c.resumed(&s.tok, s.slot)
 		return
 	}
 	c.removeSend(s)
@@ -165,7 +315,7 @@ func Send[T any](c *Chan[T], v T) {
 func (c *Chan[T]) removeSend(s *sendWait[T]) {
 	for i, x := range c.sendq {
 		if x == s {
-			c.sendq = append(c.sendq[:i:i], c.sendq[i+1:]...)
+			c.sendq = qdel(c.sendq, i)
 			c.syncCore()
 			return
 		}
@@ -176,7 +326,7 @@ func (c *Chan[T]) removeSend(s *sendWait[T]) {
 func (c *Chan[T]) removeRecv(r *recvWait[T]) {
 	for i, x := range c.recvq {
 		if x == r {
-			c.recvq = append(c.recvq[:i:i], c.recvq[i+1:]...)
+			c.recvq = qdel(c.recvq, i)
 			c.syncCore()
 			return
 		}
@@ -204,11 +354,14 @@ func Recv2[T any](c *Chan[T]) (T, bool) {
 		return z, false
 	}
 	r := &recvWait[T]{}
-	c.recvq = append(c.recvq, r)
+	raceRelease(unsafe.Pointer(&r.tok))
+	c.recvq = qpush(c.recvq, r)
 	c.syncCore()
 	Wait("chan receive", &chanWait{core: &c.core, done: &r.done})
 	if r.done {
-		c.edge()
+		if r.ok {
+			c.resumed(&r.tok, r.slot)
+		}
 		return r.v, r.ok
 	}
 	c.removeRecv(r)
@@ -219,37 +372,62 @@ func Recv2[T any](c *Chan[T]) (T, bool) {
 //
 //go:norace
 func (c *Chan[T]) takeNow() (T, bool) {
-	c.edge()
 	defer c.syncCore()
 	var z T
 	if len(c.buf) > 0 {
 		v := c.buf[0]
-		c.buf = c.buf[1:]
+		c.buf = qdel(c.buf, 0)
+		c.notifySlot(c.recvx)
+		c.recvx++
 		if len(c.sendq) > 0 { // a blocked sender moves into the freed slot
 			s := c.sendq[0]
-			c.sendq = c.sendq[1:]
-			c.buf = append(c.buf, s.v)
+			c.sendq = qdel(c.sendq, 0)
+			s.slot = c.takeOver(&s.tok)
+			c.bufPush(s.v)
 			s.taken = true
 		} else if len(c.selSend) > 0 { // ... or the send case of a parked select
 			g := c.selSend[0]
-			c.buf = append(c.buf, g.v)
+			g.w.slot = c.takeOver(&g.w.tok)
+			c.bufPush(g.v)
 			g.w.complete(g.idx, nil, false)
 		}
 		return v, true
 	}
 	if len(c.sendq) > 0 {
 		s := c.sendq[0]
-		c.sendq = c.sendq[1:]
+		c.sendq = qdel(c.sendq, 0)
+		s.slot = c.takeOver(&s.tok)
+		if c.core.cap > 0 { // through the slot: the receive notifies it (and picks up the sender's past)
+			c.notifySlot(c.recvx)
+			c.recvx++
+		}
 		s.taken = true
 		return s.v, true
 	}
 	if len(c.selSend) > 0 {
 		g := c.selSend[0]
 		v := g.v
+		g.w.slot = c.takeOver(&g.w.tok)
+		if c.core.cap > 0 {
+			c.notifySlot(c.recvx)
+			c.recvx++
+		}
 		g.w.complete(g.idx, nil, false)
 		return v, true
 	}
-	return z, false // closed
+	raceAcquire(unsafe.Pointer(&c.closeTok)) // closed: the receive sees what happened before the close
+	return z, false
+}
+
+// resumed: a parked operation was completed by its partner; the thread is running again.
+//
+//go:norace
+func (c *Chan[T]) resumed(t *uint64, slot int) {
+	if c.core.cap == 0 {
+		raceAcquire(unsafe.Pointer(t))
+		return
+	}
+	c.resumeSlot(slot)
 }
 
 //go:norace
@@ -272,7 +450,7 @@ func Close[T any](c *Chan[T]) {
 		panic("close of closed channel")
 	}
 	c.core.closed = true
-	c.edge()
+	raceRelease(unsafe.Pointer(&c.closeTok))
 	// registered receivers are woken by their predicate (closed => ready) and then drain what is still
 	// buffered before they see the zero value: nothing is completed on their behalf here
 	c.syncCore()
@@ -301,6 +479,7 @@ type selOps interface {
 	fire() any // performs the communication (known to be ready); receive: [2]any{v, ok}
 	register(w *selWait, idx int)
 	unregister(w *selWait)
+	resumed(w *selWait) // the parked select was completed through this case and runs again
 }
 
 type recvSel[T any] struct{ c *Chan[T] }
@@ -324,21 +503,22 @@ func (s recvSel[T]) fire() any { v, ok := s.c.takeNow(); return [2]any{v, ok} }
 
 //go:norace
 func (s recvSel[T]) register(w *selWait, idx int) {
-	s.c.selRecv = append(s.c.selRecv, selReg{w, idx})
+	s.c.selRecv = qpush(s.c.selRecv, selReg{w, idx})
 	s.c.syncCore()
 }
 
 //go:norace
 func (s recvSel[T]) unregister(w *selWait) {
-	out := s.c.selRecv[:0]
-	for _, g := range s.c.selRecv {
-		if g.w != w {
-			out = append(out, g)
+	for i := len(s.c.selRecv) - 1; i >= 0; i-- {
+		if s.c.selRecv[i].w == w {
+			s.c.selRecv = qdel(s.c.selRecv, i)
 		}
 	}
-	s.c.selRecv = out
 	s.c.syncCore()
 }
+
+//go:norace
+func (s recvSel[T]) resumed(w *selWait) { s.c.resumed(&w.tok, w.slot) }
 
 type sendSel[T any] struct {
 	c *Chan[T]
@@ -346,9 +526,18 @@ type sendSel[T any] struct {
 }
 
 //go:norace
+func (s sendSel[T]) resumed(w *selWait) { s.c.resumed(&w.tok, w.slot) }
+
+//go:norace
 func (s sendSel[T]) ready(self *selWait) bool {
 	c := s.c
-	if c.core.closed || len(c.buf) < c.core.cap || len(c.recvq) > 0 {
+	if c.core.closed || len(c.buf) < c.core.cap {
+		return true
+	}
+	if len(c.buf) > 0 {
+		return false // full buffer: registered receivers take from the buffer first
+	}
+	if len(c.recvq) > 0 {
 		return true
 	}
 	for _, g := range c.selRecv {
@@ -371,25 +560,25 @@ func (s sendSel[T]) fire() any {
 
 //go:norace
 func (s sendSel[T]) register(w *selWait, idx int) {
-	s.c.selSend = append(s.c.selSend, selSendReg[T]{w, idx, s.v})
+	s.c.selSend = qpush(s.c.selSend, selSendReg[T]{w, idx, s.v})
 	s.c.syncCore()
 }
 
 //go:norace
 func (s sendSel[T]) unregister(w *selWait) {
-	out := s.c.selSend[:0]
-	for _, g := range s.c.selSend {
-		if g.w != w {
-			out = append(out, g)
+	for i := len(s.c.selSend) - 1; i >= 0; i-- {
+		if s.c.selSend[i].w == w {
+			s.c.selSend = qdel(s.c.selSend, i)
 		}
 	}
-	s.c.selSend = out
 	s.c.syncCore()
 }
 
 // selWait is a parked select: its predicate (some case is ready, or a partner has completed one) and
 // the result a partner left behind.
 type selWait struct {
+	tok   uint64    // happens-before token of the parked select (see Chan)
+	slot  int       // buffered channels: the slot of the completed communication
 	cases [8]selOps // nil: case on a nil channel (never ready)
 	n     int
 	done  bool
@@ -501,6 +690,7 @@ func Select(hasDefault bool, cases ...SelCase) *Sel {
 	if hasDefault {
 		Sched("select")
 	} else {
+		raceRelease(unsafe.Pointer(&w.tok))
 		for i := 0; i < w.n; i++ {
 			if w.cases[i] != nil {
 				w.cases[i].register(w, i)
@@ -508,6 +698,7 @@ func Select(hasDefault bool, cases ...SelCase) *Sel {
 		}
 		Wait("select", w)
 		if w.done { // a partner completed one of the cases while this select was parked
+			w.cases[w.idx].resumed(w)
 			return &Sel{Index: w.idx, val: w.val, ok: w.ok}
 		}
 		for i := 0; i < w.n; i++ {
